@@ -119,7 +119,11 @@ def concrete(fn, *args):
 
 
 def verdict(case, outcome):
-  """called by a harness at its end (case = tuple of concrete args)"""
+  """called by a harness at its end (case = tuple of concrete args); bookkeeping runs untraced"""
+  return concrete(_verdict, case, outcome)
+
+
+def _verdict(case, outcome):
   case = [_jsonable(c) for c in case]
   REC.paths += 1
   if REC.twin:
@@ -139,6 +143,11 @@ def verdict(case, outcome):
     k = REC.known.setdefault(outcome.sig, {"count": 0, "case": case, "detail": outcome.detail})
     k["count"] += 1
     REC.nontrivial.add(json.dumps(case))
+    return True
+  if os.environ.get("VERIF_COLLECT_ALL"):
+    # development aid: keep exploring, report one case per distinct signature at the end
+    if not any(f["sig"] == outcome.sig for f in REC.failures):
+      REC.failures.append({"case": case, "sig": outcome.sig, "detail": outcome.detail})
     return True
   if len(REC.failures) < 20:
     REC.failures.append({"case": case, "sig": outcome.sig, "detail": outcome.detail})
